@@ -45,7 +45,7 @@ pub const GRID_I32: [i32; 19] = [0, 1, -1, 2, -2, 3, -3, 5, 7, 32767, -32767, 32
 #[cfg(verif_replay)]
 pub const GRID_U32: [u32; 9] = [0, 1, 2, 3, 7, 65536, 0x7fff_ffff, 0x8000_0000, u32::MAX];
 #[cfg(verif_replay)]
-pub const GRID_F32: [f32; 9] = [0.0, -0.0, 1.0, -1.5, 0.5, 1.0e10, f32::NAN, f32::INFINITY, 16777217.0];
+pub const GRID_F32: [f32; 13] = [0.0, -0.0, 1.0, -1.5, 0.5, 1.0e10, f32::NAN, f32::INFINITY, 16777217.0, f32::NEG_INFINITY, 1.0e-8, 2.0e-8, 0.33333334];
 #[cfg(verif_replay)]
 pub const GRID_CHAR: [char; 6] = ['a', '(', ')', '\n', '"', '\u{3bb}'];
 #[cfg(verif_replay)]
